@@ -93,6 +93,17 @@ Proof.
     do 2 eexists. repeat split; reflexivity.
 Qed.
 
+Lemma gl_end_any_len rest k wc : line_end rest ->
+  exists t i, is_eol_or_eof t = true /\ is_identifier t = false /\ tesc t = false /\ (length i <= length rest)%nat /\
+    get_loop (S (length rest) + k) wc rest 0%nat false [] tIDENT false = Ok (t, (i, 0%nat, false)).
+Proof.
+  intros [->|[r ->]]; cbn [length Nat.add get_loop is_delim is_nil andb].
+  - exists (mkTok tEOF [] false None), []. repeat split; reflexivity || (cbn; lia).
+  - replace (10 =? 32) with false by reflexivity. replace (10 =? 9) with false by reflexivity.
+    replace (10 =? 10) with true by reflexivity. cbn [orb is_nil andb].
+    exists (mkTok tEOL [10] false None), r. repeat split; reflexivity || (cbn; lia).
+Qed.
+
 (* ---------- the two inter-field states ---------- *)
 Definition pend (q : bool) : list Z := if q then [34] else [].
 Definition stq (q : bool) (r : list Z) : tstate := mkSt (pend q ++ r) 0%nat q None.
@@ -151,6 +162,16 @@ Proof.
   intros Hbl Hr. rewrite get0_stq by (auto using skip_ws_line_end).
   destruct (gl_end_any rest (if q then length bl else 0%nat) false Hr) as (t & i & H1 & H2 & H3 & E).
   rewrite E. do 2 eexists. repeat split; try eassumption. reflexivity.
+Qed.
+
+Theorem get0_end_q_len q bl rest : forallb is_blank bl = true -> line_end rest ->
+  exists t st, is_eol_or_eof t = true /\ is_identifier t = false /\ tesc t = false /\ ungot st = None /\
+    (length (inp st) <= length rest)%nat /\
+    get0 (stq q (bl ++ rest)) = Ok (t, st).
+Proof.
+  intros Hbl Hr. rewrite get0_stq by (auto using skip_ws_line_end).
+  destruct (gl_end_any_len rest (if q then length bl else 0%nat) false Hr) as (t & i & H1 & H2 & H3 & H4 & E).
+  rewrite E. exists t, (mkSt i 0%nat false None). repeat split; try assumption.
 Qed.
 
 (* peek: a token that was read and pushed back is returned by the next get() *)
